@@ -285,10 +285,12 @@ def main():
         tech, text, note, ref = CLAIMS[pid]
         if pid in WIRED:
             tech += ("; wiring rules over the resolved calls of the modules the property owns (sa/ctorflow.py): constructor forwarding along the MRO, argument exchange / "
-                     "double feed by parameter name")
-            text += (" Wiring (added after the seventh seeding round): every super().__init__ hands each option both constructors accept on under its own name, and no call "
-                     "binds two parameters of its resolved callee to each other's names or feeds one value into its own slot and another - a necessary condition for whatever "
-                     "the declared options stand for, decided on the call graph, not on the anchored functions' bodies.")
+                     "double feed / dropped parameter by name, accessor pairs, sibling-family agreement")
+            text += (" Wiring (added after the seventh and eighth seeding rounds): every super().__init__ hands each option both constructors accept on under its own name; no call "
+                     "binds two parameters of its resolved callee to each other's names, feeds one value into its own slot and another, leaves a same-named parameter behind "
+                     "unread, or loses a value in the callee's **kwargs; property getters return what their setters store; members of a family of sibling classes dispatch "
+                     "within their family and wire corresponding calls alike - necessary conditions for whatever the declared options stand for, decided on the call graph, "
+                     "not on the anchored functions' bodies.")
         checks.append({
             "property_id": pid,
             "quick_cmd": "./check %s --tier quick" % pid,
